@@ -249,6 +249,10 @@ C11_DeliveredImpliesAccepted ==
 C11_OwnClass ==
   (pc = "done" /\ OnlyRcptRefusals /\ Failures # {}) =>
      \A i \in Rcpts : IsErr(Got("rcpt", i)) => Reported(i) = Cls(Got("rcpt", i))
+\* a refused MAIL decides the whole message, whatever is answered to the commands PIPELINING had already sent
+EarlyX == \E n \in 1..Len(hist) : hist[n].a \in {"bad", "drop", "stall"} /\ hist[n].s \notin {"eod", "rset", "quit"}
+C11_MailVerdict ==
+  (pc = "done" /\ IsErr(Got("mail", 0)) /\ ~EarlyX) => result = Raise(Cls(Got("mail", 0)))
 \* a whole-message failure has the class of something the downstream did
 C11_Class ==
   (pc = "done" /\ result.k = "raise") =>
